@@ -20,7 +20,7 @@ LEVEL_NOTE = (
 
 def searcher(pats, alpha, inferral, symmetry, prefix="", rich=None):
     """rich: None | "rot" (relabelling strategies) | "two" (two competing decompositions per class) | "factory" (expansion through a factory)"""
-    pack = make_pack("", inferral, symmetry, rot=(rich if rich in ("rot", "two") else False), factory=("plain" if rich == "factory" else None))
+    pack = make_pack("", inferral, symmetry, rot=({"rot": True, "two": "two", "mixed": "mixed", "ne": "ne"}.get(rich, False)), factory=("plain" if rich == "factory" else None))
     s = CombinatorialSpecificationSearcher(PW(prefix, pats, alpha, False, ()), pack)
     specrun.quiet()
     return s
@@ -159,7 +159,7 @@ def worker(args):
                 pre2 = pre1 + rnd.choice(alpha) if rnd.random() < 0.7 else pre1
                 if rnd.random() < 0.6:
                     p2 = list(p1)
-            rich = rnd.choice([None, None, "two", "two", "rot", "factory"])
+            rich = rnd.choice([None, None, "two", "two", "rot", "factory", "mixed", "mixed", "ne", "ne"])
             for F in (ParallelSpecFinder, EqPathParallelSpecFinder):
                 inp = {"patterns1": p1, "patterns2": p2, "alphabet": alpha, "inferral": inferral, "symmetry": symmetry, "finder": F.__name__,
                        "prefix1": pre1, "prefix2": pre2, "rich": rich}
